@@ -382,6 +382,67 @@ def run_app(sc, schedule=None, seed=None, line_preempt=None):
                     sched.ev("user_close_raise", cls=type(e).__name__)
                 sched.ev("user_close_ret")
 
+        lp = sc.get("line_preempt")
+        if lp is not None:
+            import os as _os
+            trig = {"n": 0, "go": False, "fired": False}
+            libdir = _os.path.dirname(websocket.__file__)
+
+            def user_lp():
+                sched.block(lambda: trig["go"], None, what="wait for preemption point")
+                sched.ev("user_close_call")
+                try:
+                    app.close()
+                except BaseException as e:      # noqa
+                    if isinstance(e, schedworld.Killed):
+                        raise
+                    sched.ev("user_close_raise", cls=type(e).__name__)
+                sched.ev("user_close_ret")
+
+            def tracer(frame, event, arg):
+                if not frame.f_code.co_filename.startswith(libdir):
+                    return None
+                c = sched.cur()
+                if c is None or c.name != "main":
+                    return None
+
+                def local(frame, event, arg):
+                    if event == "line" and not trig["fired"]:
+                        trig["n"] += 1
+                        if trig["n"] == lp:
+                            trig["fired"] = True
+                            trig["go"] = True
+                            sched.ev("preempt", func=frame.f_code.co_name, file=_os.path.basename(frame.f_code.co_filename))
+                            sched.schedule = ["user"]
+                            sched.yield_("preempt")
+                    return local
+                return local
+            sched.tracer = tracer
+
+            def watchdog():
+                sched.block(lambda: False, sc["horizon"] / 1000.0, what="horizon")
+                if app.keep_running:
+                    sched.ev("user_close_call", where="horizon")
+                    try:
+                        app.close()
+                    except BaseException as e:      # noqa
+                        if isinstance(e, schedworld.Killed):
+                            raise
+                    sched.ev("user_close_ret")
+
+            def main_lp():
+                sched.spawn(user_lp, "user")
+                if sc.get("horizon"):
+                    sched.spawn(watchdog, "watchdog")
+                main()
+                if not trig["fired"]:
+                    trig["go"] = True        # ran out of lines: let the user thread finish
+                sched.ev("lines_total", n=trig["n"])
+            sched.run(main_lp, "main", wall=60)
+            live = [t.name for t in sched.threads if not t.done]
+            sched.ev("quiesce", open=sum(1 for s in net.conns if not s.closed), live=live,
+                     sock_none=holder["app"].sock is None, deadlock=sched.deadlock, overrun=sched.overrun)
+            return sched.log, sched
         items = list(sc.get("user", []))
         if sc.get("horizon"):
             items.append((sc["horizon"], "close"))
